@@ -26,11 +26,27 @@ def _gran(c, side):
     return c["ig"] if side == "inside" else c["og"]
 
 
+def max_source_span(sg, dg, size):
+    """The data mover's staging window starts at the source granule that holds the next byte to write and is
+    BufferSize bytes long; a source granule is read when it STARTS inside the window. For a destination write
+    [w, w+n) (n = one destination granule, or what remains of the range) the last source granule it needs starts
+    floor((w+n-1)/sg)*sg - floor(w/sg)*sg bytes after the window's start. The largest such distance over the writes
+    of a move is what the buffer size must exceed for the move to complete."""
+    span, w = 0, 0
+    while w < size:
+        n = min(dg, size - w)
+        span = max(span, (w + n - 1) // sg * sg - w // sg * sg)
+        w += dg
+    return span
+
+
 def features(c, req_index):
     q = c["reqs"][req_index]
     sg, dg = _gran(c, q["src"]), _gran(c, q["dst"])
     overlap = q["src"] == q["dst"] and q["sa"] < q["da"] < q["sa"] + q["size"]
-    if q["size"] % dg != 0:
+    if q["size"] > 0 and c["buf"] <= max_source_span(sg, dg, q["size"]):
+        cls = "buffer_smaller_than_needed_for_one_dst_granule"
+    elif q["size"] % dg != 0:
         cls = "size_not_multiple_of_dst_granularity"
     elif q["size"] % sg != 0:
         cls = "size_not_multiple_of_src_granularity"
@@ -49,6 +65,11 @@ def nontrivial(c):
     return any(q["size"] % c["ig"] != 0 or q["src"] == q["dst"] or c["buf"] < q["size"] for q in c["reqs"])
 
 
+def hangs_by_rule(c):
+    """a request of the case falls into the recorded small-buffer class"""
+    return any(features(c, i)[0] == "buffer_smaller_than_needed_for_one_dst_granule" for i in range(len(c["reqs"])))
+
+
 def run(ck):
     quick = ck.tier == "quick"
     cfg = "DataMover_q.cfg" if quick else "DataMover_t.cfg"
@@ -62,18 +83,16 @@ def run(ck):
 
     ck.cov["exhaustive"] = True
     ck.cov["rule"] = ("Every complete behaviour of DataMover.tla in the configured bounds (inside/outside granularity, buffer "
-                      "size able to hold one destination granule's worth of source granules, all four side pairs, aligned addresses, sizes incl. 0 and non-multiples, "
+                      "sizes incl. ones smaller than a granule and non-multiples of either granularity, all four side pairs, aligned addresses, sizes incl. 0 and non-multiples, "
                       "1-2 requests queued together or one after the other) is run on the real data mover at byte scales 1 "
                       "and 16 with in-order memories and once with out-of-order memories; at the instant each acknowledgment is sent all 2x8192 bytes of both memories are compared with "
                       "the specification's memories; acknowledgments must be one per request, in arrival order, RspTo = request "
                       "ID; memory must not change after the last acknowledgment. Non-trivial = differing granularities, size "
                       "not a multiple of a granularity, same-side move, buffer smaller than the range, or two requests.")
     ck.assumptions += [
-        "accepted configuration: granularities > 0, addresses aligned to their side's granularity (the mover panics "
-        "otherwise), and a buffer that can hold the source granules covering one destination granule (>= the larger "
-        "granularity when one divides the other, >= their sum otherwise). The builder validates nothing: with a smaller "
-        "buffer the mover silently never acknowledges (e.g. 64 -> 128 with buffer 64, or 256 -> 192 with buffer 256); such "
-        "configurations are treated as not accepted",
+        "accepted configuration: granularities > 0 and addresses aligned to their side's granularity (the mover panics "
+        "otherwise); EVERY buffer size is accepted (the builder validates nothing), including 0, sizes below either "
+        "granule and non-multiples of either granularity",
         "a request queued behind others is judged against the memories as the earlier moves leave them (FIFO, one at a "
         "time); 'when the move was requested' and 'when its turn comes' differ only if an earlier queued move writes the "
         "later one's source range",
